@@ -86,7 +86,9 @@ class LedgerDomain(ParamsMixin, Domain):
                              # C03 call-site ghosts: base generation, model version, the latest evaluation, samples offered so far
                              'gen': 'int', 'mver': 'int', 'lastx': 'val', 'lastvals': 'val', 'lastk': 'int', 'offered': 'int',
                              'lastslot': 'int', 'proj': 'bool', 'nptver': 'int',
-                             'ent': 'val', 'entjac': 'val', 'best': 'val', 'bestjac': 'val'}
+                             'ent': 'val', 'entjac': 'val', 'best': 'val', 'bestjac': 'val', 'rows': 'int',
+                             # "the best objective value found so far is finite": nothing in this domain establishes it (floats are havoc); C10 (f)
+                             'objfinite': 'bool'}
         fs = self.field_shapes
         fs[('Controller', 'nf')] = 'int'
         fs[('Controller', 'nx')] = 'int'
